@@ -103,6 +103,9 @@ class IsolationMonitor(Monitor):
         peer = w.by_identifier.get(identifier)
         spec = w.spec_of(peer)
         origin = [identifier, peer, [spec['ip'], spec['port']]]
+        if self.rng.random() < 0.3:
+            # resolved through the nick identifier only
+            origin[0] = f"alias-of-{peer}.sim:{spec['port']}"
         rng = self.rng
         mono = w.now - 1_700_000_000.0 + spec.get('mono_off', 0.0)
         kind, header, body = rng.choice([
